@@ -142,3 +142,77 @@ def register_alternatives(src):
         Case('fails', 'raise', lambda pre: t.TRUE, ensures=lambda pre, post: [
             ('a-failed-element-ends-the-range-only-ExplicitError-escapes', post.eng.exc_sub_term(post.exc.cls, 'ExplicitError'), T)] + list(generic_raise(pre, post)), modifies=['stream']),
     ], loops={'for i in itertools.count()': LoopSpec(_gr_inv, tags=T, modifies=())}, tags=T, foreign_errors=True)
+
+
+# ================================================================================================ Select._build
+# The alternatives are tried in declaration order through their PUBLIC build (a stream of their own, a copy of the context);
+# the bytes of the first that accepts the value are written at the current position and the value is returned unchanged; an
+# alternative that fails leaves no trace; an ExplicitError stops the search.
+from .wrappers import _written  # noqa
+for _fn, _so in (('Q_ok', t.BOOL), ('Q_len', t.INT), ('Q_exc', t.INT)):
+    prelude.declare_fun(_fn, [t.INT, t.VAL, 'Heap', 'Dom', t.INT], _so)
+prelude.declare_fun('Q_bytes', [t.INT, t.VAL, 'Heap', 'Dom', t.INT], t.ARR)
+
+
+def define_select_build_folds(src):
+    explicit = sorted(src.exc_code[n] for n in src.exc_descendants('ExplicitError'))
+    isexp = '(or %s)' % ' '.join('(= (Q_exc (sl_at sl (- k 1)) v H D c) %d)' % c for c in explicit) if len(explicit) > 1 else '(= (Q_exc (sl_at sl (- k 1)) v H D c) %d)' % explicit[0]
+    prelude.define('sbsearch', """(define-fun-rec sbsearch ((sl Int) (k Int) (v Val) (H (Array Int (Array String Val))) (D (Array Int (Array String Bool))) (c Int)) Bool
+  (ite (<= k 0) true (and (sbsearch sl (- k 1) v H D c) (not (Q_ok (sl_at sl (- k 1)) v H D c)) (not %s))))""" % isexp, deps=['Q_ok', 'Q_exc', 'sl_at'])
+
+
+def _sb(pre, k):
+    return t.app('sbsearch', t.BOOL, pre.self.fields['subcons'].ident, k, pre['obj'].t, pre.st.ghost['H'], pre.st.ghost['D'], pre.obj('context').addr)
+
+
+def _sb_unfold(pre, k, eng):
+    sl = pre.self.fields['subcons'].ident
+    a = (t.app('sl_at', t.INT, sl, t.sub(k, t.ONE)), pre['obj'].t, pre.st.ghost['H'], pre.st.ghost['D'], pre.obj('context').addr)
+    return t.implies(t.ge(k, t.ONE), t.eq(_sb(pre, k), t.and_(_sb(pre, t.sub(k, t.ONE)), t.not_(t.app('Q_ok', t.BOOL, *a)), t.not_(eng.exc_sub_term(t.app('Q_exc', t.INT, *a), 'ExplicitError')))))
+
+
+def _select_build_inv(L):
+    pre = L.extra['pre']
+    o0 = pre.obj('stream')
+    if o0.model == 'adv':
+        return []
+    o = L.obj('stream')
+    hints = [_sb_unfold(pre, L.k, L.eng)] if L.k.op != 'int' else []
+    return [('every-earlier-alternative-refused-the-value-and-left-no-trace', t.and_(_sb(pre, L.k), t.eq(o.pos, o0.pos), t.eq(o.buf, o0.buf), t.eq(o.len, o0.len),
+                                                                                   t.eq(L.st.ghost['H'], pre.st.ghost['H']), t.eq(L.st.ghost['D'], pre.st.ghost['D'])), None, hints)]
+
+
+def _select_build_ok(pre, post):
+    o, o2 = S_(pre), post.obj('stream')
+    k = post.st.ghost.get('loop_k')
+    if k is None:
+        if not getattr(post.eng.models, 'ghost_mode', False) and post.st.ghost.get('LE'):
+            return []
+        k = fresh('chosen_alternative', t.INT)
+    sl = pre.self.fields['subcons'].ident
+    n = t.app('sl_len', t.INT, sl)
+    a = (t.app('sl_at', t.INT, sl, k), pre['obj'].t, pre.st.ghost['H'], pre.st.ghost['D'], pre.obj('context').addr)
+    ln, W = t.app('Q_len', t.INT, *a), t.app('Q_bytes', t.ARR, *a)
+    return [('the-first-alternative-whose-own-build-accepts-the-value-is-chosen', t.and_(t.le(t.ZERO, k), t.lt(k, n), _sb(pre, k), t.app('Q_ok', t.BOOL, *a)), T + ('C02', 'C12')),
+            ('advances-by-the-length-of-its-bytes', t.eq(o2.pos, t.add(o.pos, ln)), T + ('C02', 'C12')),
+            _written(o, o2, ln, lambda i: t.select(W, i), 'emits-exactly-the-bytes-that-alternative-built') + (T + ('C02', 'C12'),),
+            ('returns-the-value-unchanged', result_is(post, pre['obj'].t), T + ('C02',))]
+
+
+def _select_build_bad(pre, post):
+    n = t.app('sl_len', t.INT, pre.self.fields['subcons'].ident)
+    sel = t.eq(post.exc.cls, I(post.eng.src.exc_code['SelectError']))
+    o, o2 = S_(pre), post.obj('stream')
+    out = list(generic_raise(pre, post))
+    if o.model != 'adv':
+        out = [('no-alternative-accepting-the-value-is-SelectError-with-nothing-written', t.implies(sel, t.and_(_sb(pre, n), t.eq(o2.pos, o.pos), t.eq(o2.buf, o.buf), t.eq(o2.len, o.len))), T + ('C13',)),
+               ('a-refusing-alternative-leaves-no-trace-only-ExplicitError-or-SelectError-escapes', t.or_(sel, post.eng.exc_sub_term(post.exc.cls, 'ExplicitError')), T + ('C13',))] + out
+    return out
+
+
+def register_select_build(src):
+    define_select_build_folds(src)
+    fcontract('Select', '_build', [
+        Case('ok', 'return', lambda pre: t.TRUE, ensures=_select_build_ok, rkind=rk_dyn, modifies=['stream']),
+        Case('fails', 'raise', lambda pre: t.TRUE, ensures=_select_build_bad, modifies=['stream']),
+    ], loops={'for sc in self.subcons': LoopSpec(_select_build_inv, tags=T)}, tags=T + ('C02', 'C12', 'C13'), sequential_build=False, foreign_errors=True)
